@@ -69,7 +69,7 @@ CHECKS = {
     },
     "C05": {
         "level": "exploration",
-        "tests": [{"name": "TestC05Small", "quick": 8000, "thorough": 1920000}, {"name": "TestC05Wide", "quick": 300, "thorough": 72000}, {"name": "TestC05Huge", "quick": 12, "thorough": 960, "min_per_shard": 6, "max_shards": 5}, {"name": "TestC05Sparse", "quick": 80, "thorough": 5760, "min_per_shard": 6, "max_shards": 5},
+        "tests": [{"name": "TestC05Small", "quick": 8000, "thorough": 1920000}, {"name": "TestC05Wide", "quick": 300, "thorough": 72000}, {"name": "TestC05Huge", "quick": 12, "thorough": 480, "min_per_shard": 6, "max_shards": 5}, {"name": "TestC05Sparse", "quick": 80, "thorough": 2400, "min_per_shard": 6, "max_shards": 5},
                   {"name": "TestC05Regress", "quick": 0}, {"name": "TestC05RegressAdvanceBeyond32", "quick": 0}],
         "assumptions": COMMON_ASSUMPTIONS + ["Advance targets are > the last returned document and non-decreasing (API contract), any uint64 value including targets >= 2^32; ReplaceActual only before the first step, with a subset of ActualBitmap(), on a non-1-hit iterator"],
     },
